@@ -945,6 +945,11 @@ fn c02_rand_run(case: &mut Case, rng: &mut Rng) {
                 }
             }
         }
+        if rng.chance(1, 6) {
+            // owned halves and back: no effect on the stream
+            let (h, sl) = if rng.chance(1, 2) { (c, cs) } else { (s, ss) };
+            case.ctl(&format!("q h{h} {} s{sl}", if rng.chance(1, 2) { "tcp_split" } else { "tcp_reunite" }));
+        }
         if c_open && rng.chance(1, 12) {
             case.ctl(&format!("q h{c} tcp_shutdown s{cs}"));
             c_open = false;
